@@ -278,3 +278,93 @@ example :
   decide
 
 end Firebolt.C14
+
+namespace Firebolt.C14
+open Firebolt Firebolt.EsSink
+
+/-! ### the batch-level chain and the per-document script agree (what the correspondence check compares) -/
+
+theorem handle_all_ok (retry max : Nat) (l : List (Doc × Outcome)) (h : l.all (fun x => x.2 = .ok) = true) :
+    handle retry max l = (l.map (fun x => (x.1, Ans.success)), []) := by
+  induction l with
+  | nil => rfl
+  | cons p rest ih =>
+    obtain ⟨d, o⟩ := p
+    simp only [List.all_cons, Bool.and_eq_true, decide_eq_true_eq] at h
+    obtain ⟨ho, hr⟩ := h
+    have ho' : o = .ok := ho
+    subst ho'
+    simp [handle, ih hr]
+
+/-- the `Errors = false` shortcut of `doBulkIndex` answers exactly as the per-item loop would -/
+theorem attempt_eq_handle (retry max : Nat) (l : List (Doc × Outcome)) : attempt retry max l = handle retry max l := by
+  unfold attempt
+  split
+  · rename_i h; exact (handle_all_ok retry max l h).symm
+  · rfl
+
+theorem handle_answer (retry max : Nat) (l : List (Doc × Outcome)) (d : Doc) (a : Ans) (h : (d, a) ∈ (handle retry max l).1) :
+    ∃ o, (d, o) ∈ l ∧ ((o = .ok ∧ a = .success) ∨ (o = .mapping ∧ a = .indexError) ∨ (o = .retryable ∧ retry = max ∧ a = .indexError)) := by
+  induction l with
+  | nil => simp [handle] at h
+  | cons p rest ih =>
+    obtain ⟨d', o⟩ := p
+    simp only [handle] at h
+    cases o with
+    | ok =>
+      simp only [List.mem_cons, Prod.mk.injEq] at h
+      rcases h with ⟨rfl, rfl⟩ | h
+      · exact ⟨.ok, List.mem_cons_self .., Or.inl ⟨rfl, rfl⟩⟩
+      · obtain ⟨o, ho, hh⟩ := ih h; exact ⟨o, List.mem_cons_of_mem _ ho, hh⟩
+    | mapping =>
+      simp only [List.mem_cons, Prod.mk.injEq] at h
+      rcases h with ⟨rfl, rfl⟩ | h
+      · exact ⟨.mapping, List.mem_cons_self .., Or.inr (Or.inl ⟨rfl, rfl⟩)⟩
+      · obtain ⟨o, ho, hh⟩ := ih h; exact ⟨o, List.mem_cons_of_mem _ ho, hh⟩
+    | retryable =>
+      simp only [] at h
+      split at h
+      · rename_i he
+        simp only [List.mem_cons, Prod.mk.injEq] at h
+        rcases h with ⟨rfl, rfl⟩ | h
+        · exact ⟨.retryable, List.mem_cons_self .., Or.inr (Or.inr ⟨rfl, he, rfl⟩)⟩
+        · obtain ⟨o, ho, hh⟩ := ih h; exact ⟨o, List.mem_cons_of_mem _ ho, hh⟩
+      · obtain ⟨o, ho, hh⟩ := ih h; exact ⟨o, List.mem_cons_of_mem _ ho, hh⟩
+
+/-- **every answer the chain gives a document is the answer its own script determines**: success exactly for a 2xx at the
+attempt where the document stops being retryable, an error for a mapping conflict or an exhausted budget -/
+theorem chain_answer_is_docResult (max : Nat) (script : Doc → Nat → Outcome) (fuel : Nat) : ∀ (retry : Nat) (docs : List Doc) (d : Doc) (a : Ans),
+    retry ≤ max → max - retry < fuel → (d, a) ∈ chain max script fuel retry docs → a = (docResult max (script d) fuel retry).1 := by
+  induction fuel with
+  | zero => intro retry docs d a _ hf; omega
+  | succ fuel ih =>
+    intro retry docs d a hr hf hmem
+    simp only [chain, attempt_eq_handle, List.mem_append] at hmem
+    simp only [docResult]
+    rcases hmem with hnow | hlater
+    · obtain ⟨o, ho, hh⟩ := handle_answer retry max _ d a hnow
+      obtain ⟨d', _, he⟩ := List.mem_map.1 ho
+      simp only [Prod.mk.injEq] at he
+      obtain ⟨rfl, rfl⟩ := he
+      rcases hh with ⟨h1, rfl⟩ | ⟨h1, rfl⟩ | ⟨h1, h2, rfl⟩
+      · rw [h1]
+      · rw [h1]
+      · rw [h1]; simp [h2]
+    · by_cases he : retry = max
+      · simp [he] at hlater
+      · simp only [he, if_false] at hlater
+        -- d was carried over, so it was retryable at this attempt
+        have hd : d ∈ (handle retry max (docs.map (fun d => (d, script d retry)))).2 := by
+          have := chain_exactly_once max script fuel (retry + 1) (handle retry max (docs.map (fun d => (d, script d retry)))).2 (by omega) (by omega) d
+          have hc : 0 < ((chain max script fuel (retry + 1) (handle retry max (docs.map (fun d => (d, script d retry)))).2).map (·.1)).count d :=
+            List.count_pos_iff.2 (List.mem_map.2 ⟨(d, a), hlater, rfl⟩)
+          rw [this] at hc
+          exact List.count_pos_iff.1 hc
+        obtain ⟨hret, _⟩ := carried_only_retryable retry max _ d hd
+        obtain ⟨d', _, he2⟩ := List.mem_map.1 hret
+        simp only [Prod.mk.injEq] at he2
+        obtain ⟨rfl, hs⟩ := he2
+        rw [hs]; simp only [he, if_false]
+        exact ih (retry + 1) _ d' a (by omega) (by omega) hlater
+
+end Firebolt.C14
